@@ -59,6 +59,10 @@ var runtimes = [][]byte{
 	common.Hex2Bytes("60006000600060006000600461fffff100"), // CALL identity precompile
 	common.Hex2Bytes("6000600060006000600060fe61fffff100"), // CALL governance precompile with empty input
 	common.Hex2Bytes("60005460010160005500"),               // slot0++
+	common.Hex2Bytes("600760005560006000a060006000fd"),     // SSTORE slot0 = 7, LOG0, REVERT
+	common.Hex2Bytes("6009600155fe"),                       // SSTORE slot1 = 9, INVALID
+	common.Hex2Bytes("3660006000376000600036600060fe5afa00"),     // forward the call data to the governance precompile by STATICCALL
+	common.Hex2Bytes("36600060003760006000366000600060fe5af100"), // forward the call data to the governance precompile by CALL
 }
 
 func jsonMarshal(v interface{}) ([]byte, error) { return json.Marshal(v) }
@@ -123,10 +127,10 @@ func generate(seed uint64, prop string) simrt.Case {
 			k = 1 + r.Intn(10)
 		}
 		for i := 0; i < k; i++ {
-			kinds := []string{"transfer", "create", "call", "kv", "kv", "kv-bad", "badsig", "garbage", "replay", "stale", "future", "precompile", "admin-short", "admin-direct", "empty", "lowgas", "create-fail", "admin-len"}
-			w := []int{10, 8, 10, 10, 6, 3, 3, 3, 5, 4, 3, 6, 0, 0, 1, 2, 2, 0}
+			kinds := []string{"transfer", "create", "call", "kv", "kv", "kv-bad", "badsig", "garbage", "replay", "stale", "future", "precompile", "admin-short", "admin-direct", "empty", "lowgas", "create-fail", "admin-len", "transfer-value", "create-value"}
+			w := []int{10, 8, 10, 10, 6, 3, 3, 3, 5, 4, 3, 6, 0, 0, 1, 2, 2, 0, 1, 1}
 			if prop == "C09" {
-				w = []int{6, 6, 8, 6, 4, 5, 5, 5, 6, 5, 4, 10, 4, 3, 2, 3, 5, 5}
+				w = []int{6, 6, 8, 6, 4, 5, 5, 5, 6, 5, 4, 10, 4, 3, 2, 3, 5, 5, 3, 3}
 			}
 			kd := kinds[r.Pick(w)]
 			if adminProfile && r.Chance(1, 2) {
@@ -324,6 +328,15 @@ func (w *world) mkTx(a simrt.Action) *txInfo {
 	case "create":
 		rt := runtimes[int(a.A)%len(runtimes)]
 		ti.raw = sign(etypes.NewContractCreation(nonce, zero, gas, zero, initCode(rt)), acct.key)
+	case "transfer-value", "create-value":
+		// every account of the simulated chain has balance 0: a transaction that carries value cannot be paid
+		// for; it is not valid, does not move the nonce, and its bytes stay as invalid however often they return
+		v := big.NewInt(1 + a.A%1000)
+		if a.S == "transfer-value" {
+			ti.raw = sign(etypes.NewTransaction(nonce, w.accts[int(a.A)%len(w.accts)].addr, v, gas, zero, nil), acct.key)
+		} else {
+			ti.raw = sign(etypes.NewContractCreation(nonce, v, gas, zero, initCode(runtimes[0])), acct.key)
+		}
 	case "create-fail":
 		// a contract creation whose init code fails (REVERT, INVALID, stack underflow, jump to nowhere, out of gas):
 		// the transaction is valid, the sender's nonce moves, no contract appears
@@ -429,7 +442,7 @@ func (w *world) expected(ti *txInfo) (bool, bool) {
 	}
 	k := baseKind(ti.kind)
 	switch k {
-	case "kv-bad":
+	case "kv-bad", "transfer-value", "create-value":
 		return false, true
 	case "lowgas":
 		return false, false
@@ -473,7 +486,7 @@ func (w *world) buildBlock(txs []*txInfo) (*types.Block, *types.PartSet) {
 func (w *world) apply(nd *fullnode.Node, h int64) (ok bool) {
 	inc := nd.Inc
 	blk, parts, commit := w.chain[h-1], w.chainParts[h-1], w.commits[h-1]
-	evm.VerifSetValidateRoutines(w.routines[nd.ID])
+	evm.VerifSetValidateRoutines(w.routines[nd.ID%len(w.routines)])
 	var err error
 	done := w.call(inc, "apply", func() {
 		if inc.Store.Height() < h {
@@ -972,7 +985,10 @@ func run(t *testing.T, prop string, c simrt.Case, out *simrt.Outcome, lg *simrt.
 	}
 	// ---- C09 differential twin: the chain without its invalid transactions gives the same state
 	if len(out.Violations) == 0 && len(w.chain) > 0 && (prop == "C09" || cfg.Seed%3 == 0) {
-		w.twin()
+		w.twin(false)
+		if len(out.Violations) == 0 {
+			w.twin(true)
+		}
 	}
 	for _, nd := range w.reps {
 		if nd.Inc != nil {
@@ -1010,11 +1026,14 @@ func (w *world) validEarlier(ti *txInfo) bool {
 
 // twin executes the same chain stripped of every transaction that left no trace on the
 // reference replica's nonces (the invalid ones) on a fresh node, and compares the state.
-func (w *world) twin() {
+// With failedToNull the twin keeps every transaction but replaces each one whose receipt says
+// "failed" by a null transaction of the same sender and nonce (a transfer of nothing to itself, gas
+// price 0): a failed execution may leave nothing behind but the nonce, so the state must be the same.
+func (w *world) twin(failedToNull bool) {
 	out := w.out
 	out.Evals["C09.twin"]++
-	key := crypto.GenPrivKeyEd25519FromSecret([]byte("twin"))
-	nd := fullnode.NewNode(len(w.reps), key, w.base)
+	key := crypto.GenPrivKeyEd25519FromSecret([]byte(fmt.Sprintf("twin-%v", failedToNull)))
+	nd := fullnode.NewNode(len(w.reps)+10, key, w.base)
 	w.reps = append(w.reps, nd)
 	w.routines = append(w.routines, 3)
 	w.armed = append(w.armed, 0)
@@ -1029,9 +1048,29 @@ func (w *world) twin() {
 	saveReps := w.reps
 	w.reps = []*fullnode.Node{nd}
 	defer func() { w.reps = saveReps }()
+	byRaw := map[string]*txInfo{}
+	for _, ti := range w.sent {
+		byRaw[string(ti.raw)] = ti
+	}
+	replaced := 0
 	for bi, blk := range chain {
 		var keep []*txInfo
 		for i, raw := range blk.Data.Txs {
+			if failedToNull {
+				ti := byRaw[string(raw)]
+				if ti != nil && ti.sender >= 0 && !w.certainInvalid[bi][i] && ti.admin == nil && w.receiptFailed(ref, raw) {
+					acct := w.accts[ti.sender%len(w.accts)]
+					ntx, err := etypes.SignTx(etypes.NewTransaction(ti.nonce, acct.addr, big.NewInt(0), 5000000, big.NewInt(0), nil), etypes.HomesteadSigner{}, acct.key)
+					if err == nil {
+						bz, _ := rlp.EncodeToBytes(ntx)
+						keep = append(keep, &txInfo{raw: bz})
+						replaced++
+						continue
+					}
+				}
+				keep = append(keep, &txInfo{raw: raw})
+				continue
+			}
 			// only transactions that are invalid beyond doubt (undecodable, unsigned, wrong nonce,
 			// malformed key-value payload, replayed) are removed; the rest stays in both chains
 			if w.certainInvalid[bi][i] {
@@ -1058,8 +1097,28 @@ func (w *world) twin() {
 				fmt.Printf("block %d: original %d txs, twin %d txs\n", bi+1, len(blk.Data.Txs), len(w.chain[bi].Data.Txs))
 			}
 		}
-		w.viol("C09", "invalid-tx-changed-state", "twin", "the chain with its invalid transactions removed ends in application hash %X, the original chain in %X: a transaction reported invalid left a trace in the state", fp(nd.Inc.State.AppHash), fp(ref.State.AppHash))
+		if failedToNull {
+			w.viol("C09", "failed-tx-changed-state", "twin", "the chain with its %d failed transactions replaced by null transactions of the same sender and nonce ends in application hash %X, the original chain in %X: a failed execution left more than the nonce behind", replaced, fp(nd.Inc.State.AppHash), fp(ref.State.AppHash))
+		} else {
+			w.viol("C09", "invalid-tx-changed-state", "twin", "the chain with its invalid transactions removed ends in application hash %X, the original chain in %X: a transaction reported invalid left a trace in the state", fp(nd.Inc.State.AppHash), fp(ref.State.AppHash))
+		}
 	}
+	if failedToNull {
+		out.Probes["failed_tx_replaced_by_null"] += replaced
+	}
+}
+
+// receiptFailed: does the reference replica hold a receipt for this transaction whose status is "failed"?
+func (w *world) receiptFailed(ref *fullnode.Inc, raw []byte) bool {
+	code, data, ok := w.query(ref, rtypes.QueryType_Receipt, txHash(raw))
+	if !ok || code != types.CodeType_OK || len(data) == 0 {
+		return false
+	}
+	var r etypes.ReceiptForStorage
+	if err := rlp.DecodeBytes(data, &r); err != nil {
+		return false
+	}
+	return (*etypes.Receipt)(&r).Status == etypes.ReceiptStatusFailed
 }
 
 func fp(b []byte) []byte {
